@@ -32,8 +32,9 @@ class Attribute(dict):
     """This class holds the tags's attributes."""
 
     def __getitem__(self, key: str) -> str:
-        """If self doesn't have the key it returns ''."""
-        return self.get(key, "")
+        """If self doesn't have the key (or the attribute has no value) it returns ''."""
+        value = self.get(key, "")
+        return "" if value is None else value
 
     @property
     def classes(self) -> list[str]:
